@@ -150,8 +150,13 @@ func VerifH_C10_fmp4() {
 		in.Tracks = append(in.Tracks, &fmp4.InitTrack{ID: 2, TimeScale: uint32(rateA), Codec: &fmp4.CodecOpus{ChannelCount: 2}})
 	}
 	nseg := 1 + verifChoice("nsegs", verifParam("MAXSEGS", 2))
-	baseV := uint64(verifRangeI64("basev", 0, 1<<40))
-	baseA := uint64(verifRangeI64("basea", 0, 1<<40))
+	dtMode := verifParam("DATETIME", 0) // 0: no PROGRAM-DATE-TIME (time normalisation); 1: always (AbsoluteTime)
+	maxBase := int64(1) << 40
+	if dtMode == 1 {
+		maxBase = int64(1) << uint(verifParam("DTBASEBITS", 32)) // smaller ranges keep the wall-clock arithmetic decidable
+	}
+	baseV := uint64(verifRangeI64("basev", 0, maxBase))
+	baseA := uint64(verifRangeI64("basea", 0, maxBase))
 	origin := int64(baseV) // first DTS of the leading track
 	type exp struct {
 		track    int
@@ -200,7 +205,7 @@ func VerifH_C10_fmp4() {
 			parts = append(parts, p)
 		}
 		segs = append(segs, parts)
-		if verifBool("datetime") {
+		if dtMode == 1 {
 			t := t0.Add(time.Duration(s) * 10 * time.Second)
 			dtl = append(dtl, &t)
 		} else {
